@@ -166,6 +166,11 @@ impl Mapper {
     }
   }
   
+  // Whether this key is currently held down on the output side
+  pub fn is_output_held(self: &Mapper, k: &KeyCode) -> bool {
+    self.state.pass_through_keys.contains(k) || self.state.mapped_output_keys.contains(k)
+  }
+  
   pub fn release_all(self: &mut Mapper) -> Vec<Event> {
     let to_release = self.state.input_pressed_keys.clone();
     
